@@ -255,3 +255,14 @@ def _canary_write_wrong_slot():
 CANARIES = [("read matches invalid entries", _canary_read_ignores_valid),
             ("push readiness ignores free slots other than slot 0", _canary_push_ready),
             ("write updates the slot selected by the read encoder", _canary_write_wrong_slot)]
+
+
+def _callers_items():
+    from transactron.lib import ContentAddressableMemory
+
+    return [("ContentAddressableMemory(2-bit keys, 2-bit data, 2 entries)", lambda: ContentAddressableMemory([("k", 2)], [("v", 2)], 2),
+             [("push", ["push"]), ("write", ["write"]), ("remove", ["remove"])], [])]
+
+
+from ..excl import install as _install  # noqa: E402
+_install(globals(), _callers_items())
